@@ -21,6 +21,7 @@ func init() {
 			c.run("C10-R9", "MUST-PASS/GUARD-DOM: Ctrl-C reaches the stop question; its answers map to their actions", c10R9)
 			c.run("C10-R10", "LAUNCH: the stop question and the signal waiters are started with go", c10Launch)
 			c.run("C10-R11", "GUARD-DOM: chunk times that feed the stop's clean-up wait are not recorded for chunks acknowledged across a pause", c10ChunkTimes)
+			c.run("C10-R12", "ORDER: the receiver takes a chunk's begin time anew before every attempt to read its line", c10BeginPerAttempt)
 			c.run("C10-S1", "shared with C07-R4: a directory is created — and so recorded for stop-and-delete — only when it did not exist", c07R4)
 			c.run("C10-R8", "MUST-PASS/WHO-CALLS: SIGINT/SIGTERM on the server reach the stop entry point", c10R8)
 			c.run("C10-S", "shared with C02: success only after the digest compare and the saved==size gate", func(c *Ctx) { c02Digest(c); c02SavedSize(c) })
@@ -584,7 +585,7 @@ func c10R5(c *Ctx) {
 			}
 			nRet++
 			got := "?"
-			if isNilConst(r.Results[0]) {
+			if isNilConst(retVal(r, 0)) {
 				got = ""
 			} else if u, ok := strip(r.Results[0]).(*ssa.UnOp); ok {
 				if gl, ok := u.X.(*ssa.Global); ok {
@@ -1034,4 +1035,38 @@ func c10ChunkTimes(c *Ctx) {
 	if n == 0 {
 		c.undecided("pipelineRecvAck/no-chunk-time-across-a-pause", "the ack stage records no chunk time")
 	}
+}
+
+// c10BeginPerAttempt: on the receiving side the time a chunk took is measured from the last attempt to read its line:
+// every time recvCheckV2 goes round (a keep-alive of a paused peer, a read retried after a local pause) the begin time
+// is taken again before the next read. Measured from the first attempt instead, the chunk acknowledged after a pause
+// carries the whole pause, and the next stop waits twice that long (stopTransferringFiles) before telling the peer.
+func c10BeginPerAttempt(c *Ctx) {
+	f := c.fn("trzszTransfer.recvCheckV2")
+	var read ssa.Instruction
+	for _, ci := range callsIn(f, idIs(tT+"recvLine")) {
+		read = ci.(ssa.Instruction)
+	}
+	if read == nil {
+		c.lost("recvLine call in recvCheckV2")
+	}
+	isNow := func(in ssa.Instruction) bool {
+		call, ok := in.(*ssa.Call)
+		if !ok {
+			return false
+		}
+		if u, isU := call.Call.Value.(*ssa.UnOp); isU {
+			if g, isG := u.X.(*ssa.Global); isG && g.Name() == "timeNowFunc" {
+				return true
+			}
+		}
+		return calleeID(&call.Call) == "time.Now"
+	}
+	again, _ := reachAvoid(read, func(x ssa.Instruction) bool { return x == read }, nil)
+	if again == nil {
+		c.undecided("recvCheckV2/begin-time-per-attempt", "the line read is no longer retried in a loop")
+		return
+	}
+	hit, path := reachAvoid(read, func(x ssa.Instruction) bool { return x == read }, isNow)
+	c.check(hit == nil, "recvCheckV2/begin-time-per-attempt", c.ipos(read), "the begin time is taken anew before every attempt to read the line", "the line can be read again without taking the begin time again: a chunk acknowledged after a pause is recorded with the whole pause, and the next stop waits twice that long", c.pathStr(path)...)
 }
